@@ -145,8 +145,14 @@ func famC18(g *Gen, o *Out, n int, thorough bool) {
 		if !noWrap && g.pick(3) == 0 {
 			ntop = 2 + g.pick(2)
 		}
+		if c == 0 { // fixed: the packed directory's own entries at the top of the DAG
+			noWrap, ntop = true, 1
+		}
 		for i := 0; i < ntop; i++ {
 			name := []string{"T", "tree two", "ü3"}[i]
+			if c == 1 && i == 0 {
+				name = "..snapshot" // fixed: a top-level name that merely begins with two dots
+			}
 			p := filepath.Join(src, name)
 			if !noWrap && i > 0 && g.pick(2) == 0 {
 				os.MkdirAll(src, 0o755)
@@ -155,6 +161,14 @@ func famC18(g *Gen, o *Out, n int, thorough bool) {
 				g.genTree(p, 2, &big, thorough)
 			}
 			tops = append(tops, p)
+		}
+		if c < 2 {
+			// names that begin with dots without being "." or ".." (ConfigMap volumes, dot files)
+			os.WriteFile(filepath.Join(tops[0], "..data"), []byte("dot-dot-data"), 0o644)
+			os.MkdirAll(filepath.Join(tops[0], "..2024_05_17", "inner"), 0o755)
+			os.WriteFile(filepath.Join(tops[0], "..2024_05_17", "inner", "f"), []byte("x"), 0o644)
+			os.WriteFile(filepath.Join(tops[0], ".hidden-too"), nil, 0o644)
+			os.Symlink("..data", filepath.Join(tops[0], "..link"))
 		}
 		if thorough && c == 7 { // a directory wide enough to be HAMT-sharded by the builder
 			wide := filepath.Join(tops[0], "wide")
